@@ -257,6 +257,14 @@ func (g *FnGen) hgetRaw(st *State, key string) Term {
 	if strings.HasPrefix(key, "F:") && g.symHeap == "" {
 		g.heapClosed(&State{heap: map[string]Term{}}, key)
 	}
+	if gt, ok := g.w.globalTypes[key]; ok && strings.HasPrefix(key, "G:") && g.symHeap == "" && key != "alloc" {
+		// closed heap: a reference held by a package-level variable on entry is an allocated object (or nil)
+		switch types.Unalias(gt).Underlying().(type) {
+		case *types.Pointer, *types.Map:
+			a0 := g.hget(&State{heap: map[string]Term{}}, "alloc")
+			g.emit(fmt.Sprintf("(assert (and (<= 0 %s) (<= %s %s)))", t.S, t.S, a0.S))
+		}
+	}
 	g.curTag = saved
 	return t
 }
@@ -417,6 +425,9 @@ func (g *FnGen) Generate() {
 					_ = id
 				}
 				if obj := d.Object(); obj != nil {
+					if v, isVar := obj.(*types.Var); isVar && v.IsField() {
+						continue // x.f: the name f denotes the field, not a local
+					}
 					g.debug[obj.Name()] = append(g.debug[obj.Name()], debugRef{d.X, d.IsAddr, b, i})
 				}
 			}
